@@ -94,6 +94,11 @@ pub fn hostile_string(k: u64) -> Vec<u8> {
         format!("obMatJos2{}", "\u{c3}\u{a9}\u{c3}").into_bytes(),
         "obMatJos2\u{7f}\u{80}AA".as_bytes().to_vec(),
         "obMatJos2wAAA\u{e9}".as_bytes().to_vec(),
+        // text shaped like UTF-8 encoded twice, ending in characters that are white space
+        "Universit\u{c3}\u{a0}".as_bytes().to_vec(),
+        "obMatJos2AAAAx\u{c2}\u{85}".as_bytes().to_vec(),
+        "\u{c2}\u{a0}lead".as_bytes().to_vec(),
+        "mid\u{c3}\u{a0}dle\u{c2}\u{85}".as_bytes().to_vec(),
     ];
     let n = table.len() as u64;
     if k < n {
